@@ -50,6 +50,9 @@ var c14Groups = []c14Group{
 	// an IPv4-mapped IPv6 CIDR, alone and next to genuine IPv6 / IPv4 subnets
 	{"mapped", []string{"::ffff:10.0.0.0/104"}},
 	{"mapped+", []string{"::ffff:10.8.0.0/112", "2001:db8:5::/64", "10.7.0.0/24"}},
+	// CIDRs written with host bits set (an address inside the network instead of the network address): the subnet is
+	// the masked network, also at the very top of the address space where base + offset would overflow
+	{"hostbits", []string{"192.0.2.200/24", "10.9.8.7/30", "2001:db8::1:c8/120", "255.255.255.250/24", "ffff:ffff:ffff:ffff:ffff:ffff:ffff:fff0/120"}},
 	{"unaligned", []string{"192.0.2.16/28", "10.1.16.0/20", "203.0.113.252/30", "2001:db8::ff10/124", "2001:db8:0:f000::/52"}},
 }
 
